@@ -8,6 +8,7 @@ import struct
 import numpy as np
 
 import common
+import prehist
 import spfiles
 from .base import Prop, exc_name
 from .c05 import C05
@@ -67,7 +68,8 @@ class C07(Prop):
             n = rng.randint(1, N - s)
         g = rng.choice((1, 2, 3, 5, n, n + 2, rng.randint(1, n + 1)))
         c = {"op": op, "nbits": nbits, "C": C, "N": N, "splits": spfiles.splits_of(rng, N, rng.choice((1, 1, 2))),
-             "g": g, "s": s, "n": n, "none_n": not sub and op != "samps", "dseed": rng.randrange(1 << 30)}
+             "g": g, "s": s, "n": n, "none_n": not sub and op != "samps", "dseed": rng.randrange(1 << 30),
+             "pre": prehist.gen_pre(rng, N, s, n)}
         if op == "mask":
             c["mask"] = [rng.random() < 0.4 for _ in range(C)]
             c["mval"] = rng.choice((0, 1, 0)) if nbits < 8 else rng.choice((0, 3, 7))
@@ -113,6 +115,7 @@ class C07(Prop):
         data = self._data(case)
         files = spfiles.write_fil_set(d, data, case["nbits"], case["splits"], tsamp=TSAMP, fch1=FCH1, foff=FOFF)
         fil = FilReader(files if len(files) > 1 else files[0])
+        prehist.run_pre(fil, case.get("pre"))
         kw = {"gulp": case["g"], "start": case["s"], "nsamps": None if case["none_n"] else case["n"], "quiet": True}
         op = case["op"]
         out = str(d / "out.fil")
